@@ -64,6 +64,51 @@ Lemma pn53x_readreg_enough d n payload :
 Proof. unfold pn53x_readreg_outcome, readreg_result.
   destruct (Z.ltb_spec (Z.of_nat (length payload)) n); split; intro H0; try reflexivity; try discriminate; lia. Qed.
 
+(* register values: every value of every register read on the Type 3 / Type 1 register paths *)
+Lemma tt3_poll_total commirq divirq level fifo : Z.of_nat (length fifo) = level ->
+  poll_allowed (tt3_poll commirq divirq level fifo) = true.
+Proof.
+  intro L. unfold tt3_poll.
+  destruct (negb (Z.land divirq 1 =? 0)); [reflexivity|].
+  destruct (Z.land commirq 32 =? 0); [reflexivity|].
+  destruct ((0 <? level) && (level <=? 64)) eqn:E; cbn [negb]; [|reflexivity].
+  destruct fifo as [|b r]; [cbn in L; lia|].
+  destruct (b =? Z.of_nat (length (b :: r))); reflexivity.
+Qed.
+(* data is handed to the caller only if the length byte matches the fifo level, 1..64 *)
+Lemma tt3_poll_data commirq divirq level fifo : Z.of_nat (length fifo) = level ->
+  tt3_poll commirq divirq level fifo = PollOut OData ->
+  1 <= level <= 64 /\ nth 0 fifo 0 = level /\ Z.land divirq 1 = 0 /\ Z.land commirq 32 <> 0.
+Proof.
+  intros L. unfold tt3_poll.
+  destruct (Z.eqb_spec (Z.land divirq 1) 0); cbn [negb]; [|discriminate].
+  destruct (Z.eqb_spec (Z.land commirq 32) 0); [discriminate|].
+  destruct ((0 <? level) && (level <=? 64)) eqn:E; cbn [negb]; [|discriminate].
+  destruct fifo as [|b r]; [discriminate|].
+  destruct (Z.eqb_spec b (Z.of_nat (length (b :: r)))); [|discriminate].
+  intros _. cbn [nth]. repeat split; try lia; assumption.
+Qed.
+
+Definition tt1_level_ok (level : Z) : bool :=
+  allowed (tt1_fifo_outcome level true) && allowed (tt1_fifo_outcome level false).
+Lemma tt1_levels_swept : forallb tt1_level_ok (zseq 0 256) = true.
+Proof. vm_compute. reflexivity. Qed.
+Lemma tt1_fifo_total level crc_ok : 0 <= level < 256 -> allowed (tt1_fifo_outcome level crc_ok) = true.
+Proof.
+  intro H. pose proof (sweep_lift tt1_level_ok 0 256 tt1_levels_swept level) as S.
+  assert (Hr : 0 <= level < 0 + Z.of_nat 256) by (cbn; lia). specialize (S Hr).
+  unfold tt1_level_ok in S. apply andb_true_iff in S as [S1 S2]. destruct crc_ok; assumption.
+Qed.
+(* data only for a level of 3..64 bytes (at least two decoded bytes) with a good CRC *)
+Lemma tt1_fifo_data level crc_ok : tt1_fifo_outcome level crc_ok = OData -> 3 <= level <= 64 /\ crc_ok = true.
+Proof.
+  unfold tt1_fifo_outcome, tt1_decoded_count.
+  destruct (Z.eqb_spec level 0); [discriminate|].
+  destruct (Z.ltb_spec 64 level); [discriminate|].
+  destruct (Z.ltb_spec (8 * level / 9) 2); [discriminate|].
+  destruct crc_ok; [|discriminate]. intros _. split; [lia|reflexivity].
+Qed.
+
 (* classification demanded by the property text *)
 Lemma pn53x_initiator_classify code rest : 0 <= code < 256 ->
   pn53x_status_outcome Initiator InCommunicateThru (code :: rest) =
